@@ -83,7 +83,7 @@ BASE_CFG = dict(
     paths=PATHS, enum_eqb='units_eqb',
     fields={'number': 'len_number', 'unit': 'len_unit', 'opt': 'st_opt', 'dpi': 'opt_dpi', 'view_box': 'st_view_box'},
     methods={'width': 'xr_w', 'height': 'xr_h', 'sqrt': 'sqrt_fn', 'is_finite': 'xq_finite',
-             'is_sign_negative': 'xq_sign_negative', 'max': 'xq_max', 'min': 'xq_min', 'unwrap_or': 'xq_unwrap_or'},
+             'is_sign_negative': 'xq_sign_negative', 'clamp': 'xq_clamp', 'max': 'xq_max', 'min': 'xq_min', 'unwrap_or': 'xq_unwrap_or'},
     calls={'convert_percent': 'convert_percent', 'resolve_font_size': 'resolve_font_size'},
     casts={'f32': None, 'f64': None},
 )
@@ -223,7 +223,8 @@ def generate(api):
         code = re.sub(r"//[^\n]*", "", body)
         ds = []
         # initial clamp
-        m = need(api, r"let\s+offset\s*=\s*(crate::f32_bound\(0\.0,\s*offset\s+as\s+f32,\s*1\.0\));", code, "stop offset clamp")
+        # (since 8613502 the offset is clamped as f64 before it is narrowed to f32)
+        m = need(api, r"let\s+offset\s*=\s*(offset\.clamp\(0\.0,\s*1\.0\)\s+as\s+f32);", code, "stop offset clamp")
         cfg = dict(BASE_CFG, calls=dict(BASE_CFG['calls'], **{'crate::f32_bound': 'f32_bound', 'f32_bound': 'f32_bound'}))
         ds.append(translate_block(rs, api, 'stop_offset_bound', '(offset : xq)', 'xq', "{ %s }" % m.group(1), cfg))
         need(api, r"offset:\s*StopOffset::new_clamped\(offset\)", code, "StopOffset::new_clamped(offset) at push")
